@@ -222,7 +222,7 @@ def run(ctx, only=None):
                 return rk(am) // 2
             return len(reg) - (L - rk([sub(o, False) for o in act]))
         probe('StabilizerState.entropy', lambda: int(impl.state(rows, r).entropy(reg)), lambda: ival(tstate(rows, r).entropy(reg)), (rows, r, reg),
-              when_pred=lambda a, b: 'explained-by-real-rank-in-torch-z2rank' if (not isinstance(b, str) and b == entropy_real_rank()) else '')
+              when_pred=lambda a, b: 'explained-by-real-rank-in-torch-z2rank' if (not isinstance(b, str) and not isinstance(a, str) and a == _entropy_gf2(rows, r, n, reg) and b == entropy_real_rank()) else '')
         indep = rows[:n][:rng.randrange(1, n + 1)]
         probe('stabilizer_state', lambda: (lambda st: (int(st.r), O.canon_group(impl.ops_of(st)[int(st.r):n])[0]))(pc.stabilizer_state(impl.plist(indep, n))),
               lambda: (lambda st: (int(st.r), O.canon_group(t_ops(st)[int(st.r):n])[0]))(tc.stabilizer_state(tlist(indep, n))), indep)
@@ -475,7 +475,7 @@ def run(ctx, only=None):
         rows4, r4 = G.rand_tableau(rng, n4, rng.choice([0, 1, None]))
         reg4 = rng.sample(range(n4), rng.randrange(2, n4 + 1))
         probe('StabilizerState.entropy', lambda: int(impl.state(rows4, r4).entropy(list(reg4))), lambda: ival(tstate(rows4, r4).entropy(list(reg4))), (rows4, r4, 'unsorted', reg4),
-              when_pred=lambda a_, b_: 'explained-by-real-rank-in-torch-z2rank' if (not isinstance(b_, str) and _entropy_real_rank(rows4, r4, n4, sorted(reg4)) == b_) else '')
+              when_pred=lambda a_, b_: 'explained-by-real-rank-in-torch-z2rank' if (not isinstance(b_, str) and not isinstance(a_, str) and _entropy_gf2(rows4, r4, n4, sorted(reg4)) == a_ and _entropy_real_rank(rows4, r4, n4, sorted(reg4)) == b_) else '')
     # ---- reduce around the tolerance: moduli between tol and sqrt(tol), explicit tolerances
     for _ in range(nx):
         n = rng.choice([1, 2])
@@ -558,7 +558,7 @@ def run(ctx, only=None):
         if rng.random() < 0.3:
             arg = tuple(arg)
         probe('StabilizerState.entropy', lambda: int(impl.state(rows, r).entropy(arg)), lambda: ival(tstate(rows, r).entropy(arg)), (rows, r, arg),
-              when_pred=lambda a_, b_: 'explained-by-real-rank-in-torch-z2rank' if (not isinstance(b_, str) and _entropy_real_rank(rows, r, n, reg) == b_) else '')
+              when_pred=lambda a_, b_: 'explained-by-real-rank-in-torch-z2rank' if (not isinstance(b_, str) and not isinstance(a_, str) and _entropy_gf2(rows, r, n, reg) == a_ and _entropy_real_rank(rows, r, n, reg) == b_) else '')
     # ---- a copy of an operator taken out of a list or map stays what it was when the list is rewritten afterwards (embedding a small map,
     #      overwriting rows and phases through the public arrays); a copy of a circuit takes further gates like the original
     for _ in range(nx):
@@ -670,7 +670,7 @@ def run(ctx, only=None):
         rg8 = range(a8, b8, st8) if st8 > 0 else range(b8 - 1, a8 - 1 if a8 > 0 else -1, st8)
         if len(rg8) > 0:
             probe('StabilizerState.entropy', lambda: int(impl.state(rows8, r8).entropy(rg8)), lambda: ival(tstate(rows8, r8).entropy(rg8)), ('range', rows8, r8, str(rg8)),
-                  when_pred=lambda a_, b_: 'explained-by-real-rank-in-torch-z2rank' if (not isinstance(b_, str) and _entropy_real_rank(rows8, r8, n8, sorted(rg8)) == b_) else '')
+                  when_pred=lambda a_, b_: 'explained-by-real-rank-in-torch-z2rank' if (not isinstance(b_, str) and not isinstance(a_, str) and _entropy_gf2(rows8, r8, n8, sorted(rg8)) == a_ and _entropy_real_rank(rows8, r8, n8, sorted(rg8)) == b_) else '')
         # pairwise anticommuting triples (every operator anticommutes with an even number of the others) are still rejected
         n3 = rng.choice([1, 2, 3])
         for _try in range(200):
@@ -764,7 +764,7 @@ def run(ctx, only=None):
         reg = [q_ for q_ in range(n) if bm[q_]]
         probe('StabilizerState.entropy', lambda: int(impl.state(rows, r).entropy(np.array(bm, dtype=bool))), lambda: ival(tstate(rows, r).entropy(torch.tensor(bm, dtype=torch.bool))),
               ('bool-mask', rows, r, bm),
-              when_pred=lambda a_, b_: 'explained-by-real-rank-in-torch-z2rank' if (not isinstance(b_, str) and _entropy_real_rank(rows, r, n, reg) == b_) else '')
+              when_pred=lambda a_, b_: 'explained-by-real-rank-in-torch-z2rank' if (not isinstance(b_, str) and not isinstance(a_, str) and _entropy_gf2(rows, r, n, reg) == a_ and _entropy_real_rank(rows, r, n, reg) == b_) else '')
     # ---- large grids of string pairs (more than 4096 pairs, sizes that are not multiples of a block), products of long polynomials
     for L1, L2 in ([(70, 70), (100, 45)] if ctx.tier == 'quick' else [(70, 70), (100, 45), (129, 33), (64, 65), (300, 17), (5000, 1), (1, 4099)]):
         n = rng.choice([3, 4, 5])
@@ -916,6 +916,15 @@ def run(ctx, only=None):
             for back in (False, True):
                 nm = {'plain': 'CliffordCircuit.%s', 'copy': 'CliffordCircuit.copy.%s', 'copy-compiled': 'CliffordCircuit.copy.%s', 'layer-compiled-copy': 'CliffordLayer.copy(compiled).%s', 'compiled': 'CliffordCircuit.%s(compiled)'}[how] % ('backward' if back else 'forward')
                 probe(nm, lambda: act('py', how, back), lambda: act('t', how, back), (prog, Qs, how))
+
+
+def _entropy_gf2(rows, r, n, reg):
+    """the entropy with the GF(2) rank (what the property demands)"""
+    act = rows[r:n]
+    L = len(act)
+    rk = lambda mm: O.gf2_rank([list(x) for x in mm]) if len(mm) and len(mm[0]) else 0
+    sub = lambda o, keep: [b for i in range(n) if (i in reg) == keep for b in O.to_g(o[0])[2 * i:2 * i + 2]]
+    return len(reg) - (L - rk([sub(o, False) for o in act]))
 
 
 def _entropy_real_rank(rows, r, n, reg):
